@@ -552,6 +552,66 @@ func (st *decStats) flush(r *mon.Run) {
 // results of the same calls made one after the other (obfs4proxy generates a
 // key per handshake, concurrently).  The oracle is exact and needs no
 // reference arithmetic.
+func coldStart(c *mon.Case, r *mon.Run, seed uint64) {
+	rng := mon.NewRand(seed)
+	const workers = 32
+	type res struct {
+		ok        bool
+		pub, repr [32]byte
+		panicked  string
+	}
+	privs := make([][32]byte, workers)
+	tws := make([]byte, workers)
+	got := make([]res, workers)
+	for i := range privs {
+		privs[i] = rand32(rng)
+		tws[i] = byte(rng.Uint32())
+	}
+	var ready, wg sync.WaitGroup
+	start := make(chan struct{})
+	for w := 0; w < workers; w++ {
+		w := w
+		ready.Add(1)
+		wg.Add(1)
+		go func() {
+			defer wg.Done()
+			defer func() {
+				if e := recover(); e != nil {
+					got[w].panicked = fmt.Sprint(e)
+				}
+			}()
+			p := privs[w]
+			ready.Done()
+			<-start
+			got[w].ok = ntor.VerifScalarBaseMult(&got[w].pub, &got[w].repr, &p, tws[w])
+		}()
+	}
+	ready.Wait()
+	close(start)
+	wg.Wait()
+	bad := 0
+	first := ""
+	for w := range got {
+		var want res
+		p := privs[w]
+		want.ok = ntor.VerifScalarBaseMult(&want.pub, &want.repr, &p, tws[w])
+		g := got[w]
+		if g.panicked != "" || g.ok != want.ok || (g.ok && (g.pub != want.pub || g.repr != want.repr)) {
+			bad++
+			if first == "" {
+				first = fmt.Sprintf("priv %x tweak %#x: first-use call ok=%v pub=%x panic=%q, the same call alone ok=%v pub=%x", privs[w], tws[w], g.ok, g.pub, g.panicked, want.ok, want.pub)
+			}
+		}
+	}
+	r.Count("evaluations", workers)
+	r.Count("first_use_concurrent_calls", workers)
+	if bad > 0 {
+		c.Violation("concurrent/first-use", fmt.Sprintf("%d of %d generation calls made at the same moment as the first ones of the process failed, panicked or returned something else than the same call made alone (%s)", bad, workers, first), nil)
+	} else {
+		r.Count("control_first_use_concurrent_equals_sequential", 1)
+	}
+}
+
 func concurrentKeygen(c *mon.Case, r *mon.Run, seed uint64, calls int) {
 	rng := mon.NewRand(seed)
 	const nIn = 256
@@ -682,6 +742,12 @@ func TestCheck(t *testing.T) {
 	r.Note("exhaustive_part", "all 256 tweaks for 16 private keys per grid batch and (thorough) for every structured key; all 8 values of priv[0]&7 for every grid upper part and structured pattern; all 256 single-bit and 256 all-ones-minus-one-bit strings as decode inputs and as private keys; all four top-bit settings for every decode input; every representative (<= 4) of each targeted u-coordinate")
 	r.Note("not_demanded", "which of the (up to four) representatives is returned, that it lies in [0,(p-1)/2], what the output buffers hold after a failure, how NewKeypair derives key and tweak from the CSPRNG, any statistical uniformity: reported as obs_* counters only")
 
+	// (00) the first use in this process is a concurrent one: every goroutine
+	// makes its first generation call at the same moment, before anything else
+	// in the process has generated a key; the same calls made alone afterwards
+	// must give the same results.  (Once per shard process: whatever the
+	// implementation sets up lazily is set up only once.)
+	r.EveryShard("gen/first-use-concurrent", func(c *mon.Case) { coldStart(c, r, r.Sub("cold", r.Shard)) })
 	// (0) concurrent generation against sequential results
 	for ci := 0; ci < r.Pick(8, 32); ci++ {
 		ci := ci
